@@ -190,7 +190,10 @@ func VerifC30_Outputs() {
 func VerifC30_RedeemScriptLength() {
 	var l int
 	if vThorough() {
-		l = vRange(1, 520)
+		// a 1-byte redeem script is outside the claim: the script builder
+		// encodes a single byte 1..16 or 0x81 as a bare opcode, so the
+		// all-zero placeholder is one byte shorter than e.g. a lone 0x51
+		l = vRange(2, 520)
 	} else if vBool() {
 		l = vRange(72, 80)
 	} else {
